@@ -86,6 +86,10 @@ var specs = []fieldSpec{
 	{"sfixed64", pgen.F(enc(pgen.Int64, "fixed64"), pgen.Plain), []tmpl{{"-3", val(int64(-3))}, {"9223372036854775807", val(int64(math.MaxInt64))}}, &bitor{proto.BitOr[int64]{}, 1 << 33}},
 	{"map[string]int32", pgen.MapF(pgen.String, sc(pgen.Int32)), []tmpl{{`{"k":5}`, val(map[string]int32{"k": 5})}, {`{"k":5,"l":6}`, val(map[string]int32{"k": 5, "l": 6})}}, nil},
 	{"map[string]string", pgen.MapF(pgen.String, sc(pgen.String)), []tmpl{{`{"k":"v"}`, val(map[string]string{"k": "v"})}}, nil},
+	{"map[string]int64", pgen.MapF(pgen.String, sc(pgen.Int64)), []tmpl{{`{"k":5}`, val(map[string]int64{"k": 5})}, {`{"k":-3,"l":6}`, val(map[string]int64{"k": -3, "l": 6})}}, nil},
+	{"map[string]sint64", pgen.Field{Elem: enc(pgen.Int64, "zigzag64"), Wrap: pgen.MapVal, Key: pgen.String}, []tmpl{{`{"k":5}`, val(map[string]int64{"k": 5})}, {`{"k":-3}`, val(map[string]int64{"k": -3})}}, nil},
+	{"map[int32]int32", pgen.MapF(pgen.Int32, sc(pgen.Int32)), []tmpl{{`{"3":7}`, val(map[int32]int32{3: 7})}, {`{"-2":-5}`, val(map[int32]int32{-2: -5})}}, nil},
+	{"[]sint32", pgen.F(enc(pgen.Int32, "zigzag32"), pgen.Slice), []tmpl{{"[4,-5]", val([]int32{4, -5})}, {"[-1]", val([]int32{-1})}}, nil},
 }
 
 var numberBases = []int{1, 14, 15, 30, 31, 62, 63, 64, 254, 255, 256, 299, 2046, 2047, 70000}
@@ -201,7 +205,43 @@ func templates(c *explore.Ctx) {
 			idx[i] = c.Choose(8) * 3 % len(specs) // a spread subset for the companions
 		}
 	}
-	base := numberBases[c.Deviate(len(numberBases))]
+	templatesBody(c, idx, numberBases)
+}
+
+func specIndex(name string) int {
+	for i := range specs {
+		if specs[i].name == name {
+			return i
+		}
+	}
+	panic("no field spec " + name)
+}
+
+// siblingFields: two or three fields of the same Go type that differ only in their wire encoding (what the
+// package remembers per Go type must not leak from one field into its sibling).
+func siblingFields(c *explore.Ctx) {
+	groups := [][]string{
+		{"map[string]int64", "map[string]sint64"},
+		{"map[string]sint64", "map[string]int64"},
+		{"map[int32]int32", "map[sint32]sfixed32"},
+		{"map[sint32]sfixed32", "map[int32]int32", "int32"},
+		{"map[string]int64", "string", "map[string]sint64"},
+		{"int32", "sint32", "sfixed32"},
+		{"sfixed64", "int64", "sint64"},
+		{"[]int32", "[]sint32"},
+		{"[]sint32", "int32", "[]int32"},
+	}
+	g := groups[c.Choose(len(groups))]
+	idx := make([]int, len(g))
+	for i, n := range g {
+		idx[i] = specIndex(n)
+	}
+	templatesBody(c, idx, []int{1, 2046})
+}
+
+func templatesBody(c *explore.Ctx, idx []int, bases []int) {
+	nf := len(idx)
+	base := bases[c.Deviate(len(bases))]
 	m := build(idx, base)
 	// input value: every field absent / present / present with another value
 	v := reflect.New(m.Type).Elem()
@@ -763,6 +803,7 @@ func Spec() *explore.Spec {
 				return 1
 			},
 				Doc: "message types of 1-3 fields (21 field shapes: every integer kind, sint, bool, string, bytes, floats, pointer, nested, pointer-to-nested, repeated scalar/string/nested, string-keyed maps) x 15 field-number bases (1..70000) x input value per field {absent, present, other} x template per field {not mentioned, each template value, BitOr rule} x input form {canonical, unknown fields interleaved, scalars present twice, empty} x {empty out, out with a prefix}"},
+			{Name: "sibling-fields", ShardDepth: 2, Body: siblingFields, Bound: func(string) int { return 1 }, Doc: "9 message types whose fields share a Go type but not a wire encoding (map[string]int64 next to a map with sint64 values, map[int32]int32 next to sint32 keys / sfixed32 values, int32 / sint32 / sfixed32, []int32 / []sint32, in both orders, with a third field) x 2 field-number bases x the templates family's input values, template subsets and input forms"},
 			{Name: "manual", ShardDepth: 2, Body: manual, Doc: "hand-assembled MessageRewriter / MultiRewriter for field numbers 1..2048 x replacement kinds x {absent, once, twice} : output compared byte-for-byte"},
 			{Name: "manual-pairs", ShardDepth: 2, Body: manualPairs, Doc: "rewriters templating two fields (12 number pairs incl. 32 and 64 apart within and across 64-blocks) x each field absent / once / twice x input order x leading untemplated field; applied three times with a nil output buffer: byte-exact outputs, and an earlier output is not changed by a later application"},
 			{Name: "helpers", ShardDepth: 1, Body: helpers, Doc: "FieldNumber.{Bool,Int*,Uint*,Fixed*,Float*,String,Bytes,Value} and Append* on boundary values x 11 field numbers vs protowire, then Parse"},
